@@ -3,7 +3,7 @@ From Coq Require Import Reals ZArith List Bool Arith Permutation.
 From NessaiV Require Model.C03_Meta.
 From NessaiV Require Import Lib.Enclose Lib.Effects Model.C01_LiveSet Proofs.C01_LiveSet_proofs
      Model.C02_Quadrature Model.C05_Results
-     Proofs.C05_Results_proofs Proofs.C05_Counts_proofs Proofs.C05_InsCount_proofs.
+     Proofs.C05_Results_proofs Proofs.C05_Counts_proofs Proofs.C05_InsCount_proofs Proofs.C05_Info_proofs.
 Import ListNotations.
 
 (* ---- standard sampler: number, order and birth likelihoods of the returned samples ---------- *)
@@ -72,6 +72,16 @@ Theorem C05_recompute_std_err : forall p md li ls ns nlive,
   Forall2 xencl li ls -> encl (std_err_I p md li ns nlive) (std_err md ls ns nlive).
 Proof. intros p md li ls ns nlive. apply std_err_encl. Qed.
 Print Assumptions C05_recompute_std_err.
+(* ... and that recurrence is, in closed form, H = (W_k0 ln W_k0 + sum_{i > k0} W_i ln L_i) / Z - ln Z with
+   W_i = L_i (X_{i-1} - X_i) the rectangle weights, k0 the first sample of finite likelihood and Z the
+   rectangle evidence: the estimator is a function of the returned likelihoods and the live-count schedule
+   alone (the exact information has ln L_k0 in place of ln W_k0) *)
+Theorem C05_info_closed_form : forall md (ls : list xlog) (ns : list positive),
+  let s := h_run md ls ns in
+  let g := snd (hg_run md h_init 0%R (combine ls ns)) in
+  hseen s = true -> (0 < hZ s)%R /\ hH s = (g / hZ s - ln (hZ s))%R.
+Proof. exact info_closed_form. Qed.
+Print Assumptions C05_info_closed_form.
 (* (log Z and the posterior weights of the standard sampler are C02's functions of the returned
    samples: theorems C02_state_eq_compute_weights, C02_encl, C02_check_sound; the check below feeds
    the returned samples of real runs through C02's verified evaluator) *)
